@@ -216,3 +216,165 @@ impl std::io::Seek for SplitReader {
         Ok(new as u64)
     }
 }
+
+// ---------------------------------------------------------------------------------------------
+// an instrumented in-memory stream: records every call, can fail the n-th call, can be observed
+// while a writer owns it (shared handle)
+// ---------------------------------------------------------------------------------------------
+use std::cell::RefCell;
+use std::rc::Rc;
+
+#[derive(Clone, Copy, Debug, PartialEq)]
+pub enum FaultKind {
+    None,
+    /// this call and every later one fails
+    Permanent,
+    /// this call fails once with `Interrupted`
+    Interrupted,
+    /// this call fails once with `Other`
+    Once,
+    /// this write accepts only k bytes (k >= 1)
+    Short(usize),
+}
+
+#[derive(Default)]
+pub struct IoState {
+    pub data: Vec<u8>,
+    pub pos: usize,
+    pub ncalls: usize,
+    /// (kind, argument, data length afterwards); kind: w write, f flush, s seek, r read
+    pub log: Vec<(char, usize, usize)>,
+    pub fail_at: Option<usize>,
+    pub kind: Option<FaultKind>,
+    pub tripped: bool,
+    /// which call kinds count (empty = all)
+    pub only: Vec<char>,
+}
+
+#[derive(Clone)]
+pub struct Shared(pub Rc<RefCell<IoState>>);
+
+impl Shared {
+    pub fn new(start: usize) -> Self {
+        let st = IoState { data: vec![0xAA; start], pos: start, ..Default::default() };
+        Shared(Rc::new(RefCell::new(st)))
+    }
+    pub fn from_data(data: Vec<u8>) -> Self {
+        let st = IoState { data, pos: 0, ..Default::default() };
+        Shared(Rc::new(RefCell::new(st)))
+    }
+    pub fn fail(&self, at: usize, kind: FaultKind, only: &str) {
+        let mut s = self.0.borrow_mut();
+        s.fail_at = Some(at);
+        s.kind = Some(kind);
+        s.only = only.chars().collect();
+    }
+    pub fn data(&self) -> Vec<u8> {
+        self.0.borrow().data.clone()
+    }
+    /// returns Some(error) if this call must fail, or Some(short) handled by caller
+    fn fault(&self, kind: char) -> Option<FaultKind> {
+        let mut s = self.0.borrow_mut();
+        if !s.only.is_empty() && !s.only.contains(&kind) {
+            return None;
+        }
+        let idx = s.ncalls;
+        s.ncalls += 1;
+        match (s.fail_at, s.kind) {
+            (Some(at), Some(FaultKind::Permanent)) if idx >= at => {
+                s.tripped = true;
+                Some(FaultKind::Permanent)
+            }
+            (Some(at), Some(k)) if idx == at && k != FaultKind::Permanent => {
+                s.tripped = true;
+                Some(k)
+            }
+            _ => None,
+        }
+    }
+}
+
+fn io_err(k: FaultKind) -> std::io::Error {
+    match k {
+        FaultKind::Interrupted => std::io::Error::new(std::io::ErrorKind::Interrupted, "injected interrupt"),
+        _ => std::io::Error::other("injected fault"),
+    }
+}
+
+impl std::io::Write for Shared {
+    fn write(&mut self, buf: &[u8]) -> std::io::Result<usize> {
+        let mut n = buf.len();
+        match self.fault('w') {
+            Some(FaultKind::Short(k)) => n = n.min(k.max(1)),
+            Some(k) => {
+                self.0.borrow_mut().log.push(('W', buf.len(), 0));
+                return Err(io_err(k));
+            }
+            None => {}
+        }
+        let mut s = self.0.borrow_mut();
+        let pos = s.pos;
+        if s.data.len() < pos + n {
+            s.data.resize(pos + n, 0);
+        }
+        s.data[pos..pos + n].copy_from_slice(&buf[..n]);
+        s.pos += n;
+        let l = s.data.len();
+        s.log.push(('w', n, l));
+        Ok(n)
+    }
+    fn flush(&mut self) -> std::io::Result<()> {
+        if let Some(k) = self.fault('f') {
+            self.0.borrow_mut().log.push(('F', 0, 0));
+            return Err(io_err(k));
+        }
+        let mut s = self.0.borrow_mut();
+        let l = s.data.len();
+        s.log.push(('f', 0, l));
+        Ok(())
+    }
+}
+
+impl std::io::Read for Shared {
+    fn read(&mut self, buf: &mut [u8]) -> std::io::Result<usize> {
+        let mut want = buf.len();
+        match self.fault('r') {
+            Some(FaultKind::Short(k)) => want = want.min(k.max(1)),
+            Some(k) => {
+                self.0.borrow_mut().log.push(('R', buf.len(), 0));
+                return Err(io_err(k));
+            }
+            None => {}
+        }
+        let mut s = self.0.borrow_mut();
+        let pos = s.pos.min(s.data.len());
+        let n = want.min(s.data.len() - pos);
+        buf[..n].copy_from_slice(&s.data[pos..pos + n]);
+        s.pos = pos + n;
+        let l = s.data.len();
+        s.log.push(('r', n, l));
+        Ok(n)
+    }
+}
+
+impl std::io::Seek for Shared {
+    fn seek(&mut self, pos: std::io::SeekFrom) -> std::io::Result<u64> {
+        if let Some(k) = self.fault('s') {
+            self.0.borrow_mut().log.push(('S', 0, 0));
+            return Err(io_err(k));
+        }
+        let mut s = self.0.borrow_mut();
+        let new = match pos {
+            std::io::SeekFrom::Start(p) => p as i128,
+            std::io::SeekFrom::Current(d) => s.pos as i128 + d as i128,
+            std::io::SeekFrom::End(d) => s.data.len() as i128 + d as i128,
+        };
+        if new < 0 {
+            return Err(std::io::Error::new(std::io::ErrorKind::InvalidInput, "seek before start"));
+        }
+        s.pos = new as usize;
+        let l = s.data.len();
+        s.log.push(('s', new as usize, l));
+        Ok(new as u64)
+    }
+}
